@@ -325,6 +325,12 @@ def install():
             f = c(f)
         return f
 
+    import skchange.anomaly_detectors  # noqa: F401  (all concrete classes must exist before
+    import skchange.anomaly_detectors.anomalisers  # noqa: F401   their subclasses are walked)
+    import skchange.anomaly_scores  # noqa: F401
+    import skchange.change_detectors  # noqa: F401
+    import skchange.change_scores  # noqa: F401
+    import skchange.costs  # noqa: F401
     import vf.userdefs  # noqa: F401  (so that the user-defined programs are decorated too)
 
     def k3():
